@@ -253,7 +253,7 @@ int main(int argc, char **argv) {
                 steps.push_back(s);
             }
             CaseFile c; c.set("doc", cm::ser_plain(d)); c.set("script", ser_steps(steps)); c.seti("abort", *g::range(0, 1)); c.seti("destroyed", *g::chance(4) ? 1 : 0);
-            begin_case(c);
+            VH_BEGIN(c);
             if (steps.size() <= 6) { std::string s = std::to_string(ncols) + "x" + std::to_string(nrows) + (scalar ? " scalar: " : ": "); for (auto &st : steps) { s += ACT[st.act]; s += " "; } s += c.geti("abort") ? "abort" : "close"; sample(s); }
             std::string m = run_case(c);
             if (!m.empty()) { record_fail(c, m); RC_FAIL(m); }
